@@ -123,6 +123,8 @@ class FakeProc:
         w.next_pid += 1
         w.procs.append(self)
         w.started += 1
+        if w.start_hook is not None:
+            w.start_hook(self)          # Process.start() takes time: other parent threads run while the supervisor is inside it
 
     def join(self, timeout=None):
         self.joined += 1
@@ -346,6 +348,7 @@ class World:
         self.out_times = collections.deque()   # enqueue instant of every pending worker message
         self.drain_bound = None     # assumption A-drain: no message stays unread this long
         self.join_hook = None
+        self.start_hook = None      # runs inside Process.start() of every worker started from now on
         self.blocked_hook = None    # lets the other parent threads move while the caller blocks on a lock; returns True if something moved
         self.guard_waits = 0
 
